@@ -285,3 +285,13 @@ impl AimEvaluator {
         smoothstep(angle, f64::to_radians(140.0), f64::to_radians(40.0))
     }
 }
+
+/// Verification hook: raw output of `AimEvaluator::evaluate_diff_of`.
+#[cfg(rosu_pp_verif)]
+pub fn verif_evaluate<'a>(
+    curr: &'a OsuDifficultyObject<'a>,
+    diff_objects: &'a [OsuDifficultyObject<'a>],
+    with_slider_travel_dist: bool,
+) -> f64 {
+    AimEvaluator::evaluate_diff_of(curr, diff_objects, with_slider_travel_dist)
+}
